@@ -21,6 +21,7 @@ type SpecEnv struct {
 	pos      token.Pos
 	depth    int
 	resIndex int // which result of a pure call is meant (res1(x.M()))
+	outermost bool // resolve local names to the outermost declaration (postconditions) instead of the innermost
 }
 
 func (env *SpecEnv) copy() *SpecEnv {
@@ -134,7 +135,7 @@ func (env *SpecEnv) lookupVarByName(name string) (Val, bool) {
 		if o.Name() != name {
 			continue
 		}
-		if best == nil || o.Pos() > best.Pos() {
+		if best == nil || (!env.outermost && o.Pos() > best.Pos()) || (env.outermost && o.Pos() < best.Pos()) {
 			best = o
 		}
 	}
